@@ -117,6 +117,31 @@ def raised(x):
     return isinstance(x, Raised)
 
 
+_NOT_A_SEQ = object()
+
+
+def seq(x, n=None):
+    """tuple(x) for a list/tuple x (of length n when n is given); otherwise a 1-tuple holding a private sentinel, which never
+    equals an expected tuple. For comparing a library result of unknown shape with an expected tuple."""
+    if isinstance(x, (list, tuple)) and (n is None or len(x) == n):
+        return tuple(x)
+    return (_NOT_A_SEQ,)
+
+
+def pair(x):
+    """(a, b) when x is a list/tuple of length 2, else None (the caller records a failure before unpacking)."""
+    if isinstance(x, (list, tuple)) and len(x) == 2:
+        return (x[0], x[1])
+    return None
+
+
+def hexof(x):
+    """For detail strings only: x.hex() for a byte string, repr(x) for anything else."""
+    if isinstance(x, (bytes, bytearray)):
+        return x.hex()
+    return repr(x)
+
+
 def _empty(obj):
     if isinstance(obj, dict):
         for v in obj.values():
